@@ -241,3 +241,6 @@ v("c17-peel-max-instead-of-min", {"C17", "C02"}, (GU, "uBottleneck = min(B[u], G
 v("c17-peel-predecessor-outside-update", {"C17", "C02"}, (GU, "                if uBottleneck > B[v]:\n                    B[v] = uBottleneck\n                    maxInNeighbor[v] = u", "                if uBottleneck > B[v]:\n                    B[v] = uBottleneck\n                maxInNeighbor[v] = u", 1))
 v("c17-peel-on-self", {"C17", "C02"}, (SDAG, "            bottleneck, path = graphutils.max_bottleneck_path(temp_G, flow_attr)", "            bottleneck, path = graphutils.max_bottleneck_path(self, flow_attr)", 1))
 v("benign-peel-renamed", B, (SDAG, "            for i in range(len(path) - 1):\n                temp_G[path[i]][path[i + 1]][flow_attr] -= bottleneck", "            for pos in range(0, len(path) - 1):\n                temp_G[path[pos]][path[pos + 1]][flow_attr] -= bottleneck", 1))
+# --- decomposition-level benign edits (sa/inline)
+v("benign-rename-private-encoder", B, (KFD, "_encode_flow_decomposition_with_given_weights", "_encode_decomposition_with_given_weights", 2))
+v("benign-extract-objective-helper", B, (KPC, "    def get_solution(self):", "    def _noop_helper(self, x):\n        y = x\n        return y\n\n    def get_solution(self):", 1))
